@@ -302,6 +302,64 @@ def fastFrames (s : FSw) : List Bytes → FSw × List FObs
     let (s', os) := fastFrames (fastApply s o) r
     (s', o :: os)
 
+/-! ## FAST switch states on the real platform: `SA:` snapshots and `-L:`/`/L:` events together
+
+`cfg n`: a switch with hardware number `n` is configured on this platform; `inv n`: it is normally closed (`invert`).
+An event reports the *logical* state of one switch (`process_switch_by_num(..., logical=True)`); a snapshot carries one raw
+bit per switch number and sets every configured switch it lists to `invert xor bit`
+(`_process_sa` → `platform.hw_switch_data` → `update_switches_from_hw_data`). -/
+
+structure PSw where
+  cfg : List Bool := []
+  inv : List Bool := []
+  logical : List Bool := []    -- switch_controller.is_active by hardware number (unconfigured numbers stay false)
+  hw : List Bool := []         -- platform.hw_switch_data (the last snapshot)
+  deriving DecidableEq, Repr
+
+/-- a report that can change switch states -/
+inductive SOp
+  | snap (bits : List Bool)
+  | ev (n : Nat) (active : Bool)
+  deriving DecidableEq, Repr
+
+/-- what a snapshot says about switch `n` (`cur` if it says nothing: not configured or not listed) -/
+def snapAt (cfg inv bits : List Bool) (n : Nat) (cur : Bool) : Bool :=
+  match cfg[n]?, inv[n]?, bits[n]? with
+  | some true, some i, some b => i != b
+  | _, _, _ => cur
+
+def snapUpd : List Bool → List Bool → List Bool → List Bool → List Bool   -- cfg inv bits logical
+  | c :: cs, i :: is, b :: bs, l :: ls => (if c then i != b else l) :: snapUpd cs is bs ls
+  | _, _, _, ls => ls
+
+def swApply (s : PSw) : SOp → PSw
+  | .snap bits => { s with logical := snapUpd s.cfg s.inv bits s.logical, hw := bits }
+  | .ev n a => if s.cfg[n]? = some true then { s with logical := setAt s.logical n a } else s
+
+def swRun : PSw → List SOp → PSw
+  | s, [] => s
+  | s, o :: r => swRun (swApply s o) r
+
+/-- what one report says about switch `n`, given what was known before -/
+def sayAt (s : PSw) (n : Nat) (cur : Bool) : SOp → Bool
+  | .snap bits => snapAt s.cfg s.inv bits n cur
+  | .ev m a => if m = n ∧ s.cfg[n]? = some true then a else cur
+
+def toSOp : FObs → Option SOp
+  | .closed n => some (.ev n true)
+  | .opened n => some (.ev n false)
+  | .report bits => some (.snap bits)
+  | _ => none
+
+def swFrames (s : PSw) : List Bytes → PSw × List FObs
+  | [] => (s, [])
+  | f :: r =>
+    if f.isEmpty then swFrames s r else
+    let o := fastDispatch f
+    let s1 := match toSOp o with | some op => swApply s op | none => s
+    let (s', os) := swFrames s1 r
+    (s', o :: os)
+
 /-! ## FAST command writer (`_socket_writer`, `pause_sending`, `_dispatch_incoming_msg`) as the code is -/
 
 structure WMsg where
@@ -459,6 +517,8 @@ structure DSt where
   plat : Plat := {}
   w : WSt := {}
   r : RSt := {}
+  psw : PSw := {}
+  pbuf : Bytes := []
 
 def words (l : List String) : String := " ".intercalate l
 
@@ -533,6 +593,18 @@ def driverStep (s : DSt) (line : String) : DSt × String :=
   | ["wrecv", h] =>
     match ofHex h with
     | some hb => let w := wStep s.w (.recv hb); ({ s with w := w }, showW w)
+    | none => (s, "bad-op")
+  | ["swinit", c, i, l, h] =>
+    let bits := fun (t : String) => if t = "-" then [] else t.toList.map (fun ch => ch == '1')
+    ({ s with psw := { cfg := bits c, inv := bits i, logical := bits l, hw := bits h }, pbuf := [] }, "ok")
+  | ["fastsw", c] =>
+    match ofHex c with
+    | some b =>
+      let (buf, frames) := feed (delimStep CR) s.pbuf b
+      let (sw, obs) := swFrames s.psw frames
+      ({ s with pbuf := buf, psw := sw },
+        words (obs.map (fun o => match o with | .report _ => "sa" | x => showFObs x) ++
+               ["buf=" ++ toHex buf, "l=" ++ bitsStr sw.logical, "hw=" ++ bitsStr sw.hw]))
     | none => (s, "bad-op")
   | ["rstart", g, m] =>
     match m.toNat? with
